@@ -113,6 +113,29 @@ def root_in_domain(dom, root, p):
     return sv._and(res)
 
 
+def special_branch(p):
+    """which special-case branch of solve_poly_cubic / solve_poly_quartic (solve.cpp) the polynomial takes:
+    the branches that solve an auxiliary equation *with the caller's domain* (KF-C30-06)"""
+    p = sv.p_trim(p)
+    deg = len(p) - 1
+    if deg == 3:
+        return "cubic_d0" if p[0] == 0 else None
+    if deg != 4:
+        return None
+    lc = p[4]
+    a, b, c, d = p[3] / lc, p[2] / lc, p[1] / lc, p[0] / lc
+    if d == 0:
+        return "quartic_d0"
+    e = b - 3 * a * a / 8
+    ff = c + a ** 3 / 8 - a * b / 2
+    g = d + a * a * b / 16 - a * c / 4 - 3 * a ** 4 / 256
+    if g == 0:
+        return "quartic_g0"
+    if ff == 0:
+        return "quartic_f0"
+    return None
+
+
 PROBES = [Fraction(0), Fraction(1), Fraction(-1), Fraction(1, 2), Fraction(7, 3), Fraction(-5, 2), Fraction(10)]
 
 
@@ -166,6 +189,12 @@ class C30(Check):
             st.fixed_dictionaries({"kind": st.just("poly"), "coeffs": coeffs, "dom": dom,
                                    "op": st.sampled_from(["solve", "solve", "solve_poly"]),
                                    "eq": st.one_of(st.none(), st.none(), st.lists(small, min_size=1, max_size=3))}))
+        # p(x) = q(x - h), q(y) = y^4 + e y^2 + f y + g (or y^3 + e y + f) with f or g possibly zero: the
+        # special-case branches of solve_poly_quartic (g == 0, f == 0) and the zero-discriminant cubic
+        shifted = st.fixed_dictionaries({"kind": st.just("poly"), "shifted": st.tuples(small, small, st.one_of(st.just([0, 1]), small),
+                                                                                    st.one_of(st.just([0, 1]), small)).map(list),
+                                         "deg": st.sampled_from([4, 4, 3]), "lead": nz, "dom": dom,
+                                         "op": st.sampled_from(["solve", "solve_poly"]), "eq": st.none()})
         sl2 = st.lists(spec, min_size=0, max_size=2).map(lambda xs: clamp_specs(xs, 2))
         ratl = st.fixed_dictionaries({
             "kind": st.just("rational"), "n1": sl2, "d1": st.lists(spec, min_size=1, max_size=2).map(lambda xs: clamp_specs(xs, 2) or [["q", 1, 1]]),
@@ -187,7 +216,7 @@ class C30(Check):
             "diag": st.lists(nz, min_size=k, max_size=k), "perm": st.permutations(list(range(k))),
             "x": st.lists(small, min_size=k, max_size=k), "eqform": st.lists(st.integers(0, 2), min_size=k, max_size=k),
             "symperm": st.permutations(list(range(k)))}))
-        return st.one_of(poly, poly, poly, poly, ratl, ratl, trig, lin)
+        return st.one_of(poly, poly, poly, shifted, ratl, ratl, trig, lin)
 
     def enumerate(self, tier):
         # the special-case branches of the cubic / quartic formulas, each with the three kinds of domain
@@ -274,7 +303,16 @@ class C30(Check):
             ratroots = [Fraction(s[1], s[2]) for s in specs if s[0] == "q"]
             src = "specs"
         else:
-            p = sv.p_trim([fr(c) for c in case["coeffs"]])
+            if "shifted" in case:
+                h, e, f_, g = [fr(c) for c in case["shifted"]]
+                q = [g, f_, e, Fraction(0), Fraction(1)] if case["deg"] == 4 else [f_, e, Fraction(0), Fraction(1)]
+                p, powk = [], [Fraction(1)]
+                for c in q:
+                    p = sv.p_add(p, sv.p_scale(powk, c))
+                    powk = sv.p_mul(powk, [-h, Fraction(1)])
+                p = sv.p_scale(p, fr(case["lead"]))
+            else:
+                p = sv.p_trim([fr(c) for c in case["coeffs"]])
             form = "expanded"
             expr = poly_recipe(p)
             try:
@@ -293,6 +331,12 @@ class C30(Check):
             else:
                 expr = ["Eq", ["add", expr, poly_recipe(r)], poly_recipe(r)]
         desc = "%s(%s, x%s)" % (case["op"], engine.sx(expr), "" if dom[0] == "universal" else ", " + engine.sx(dom_recipe(dom)))
+        special = form != "factored" and special_branch(p)
+        if special:
+            self.cls("poly:special:" + special)
+        if special and dom[0] != "universal" and self.tag_active("poly_inner_solve_domain"):
+            self.skip("known:poly_inner_solve_domain")
+            return
         res = self.call(case["op"], expr, dom)
         if self.declined(res):
             return
@@ -411,6 +455,11 @@ class C30(Check):
         single_fraction = not case["second"]
         if self.tag_active("solve_mul_ignores_poles") and case["op"] == "solve" and single_fraction and cancelled:
             self.skip("known:solve_mul_ignores_poles")
+            return
+        if (self.tag_active("rational_domain_complement_demorgan") and dom[0] != "universal"
+                and any(sp[0] != "q" for sp in d1s)):
+            # solve(den, x, domain) is an unevaluated Intersection(domain, FiniteSet)
+            self.skip("known:rational_domain_complement_demorgan")
             return
         if self.tag_active("solve_rational_structural_poles") and cancelled and len(num) - 1 >= 3:
             # (op solve on a sum, or solve_rational): the numerator goes through the cubic / quartic formula
